@@ -4,8 +4,11 @@ import json, os
 V = os.path.dirname(os.path.dirname(os.path.abspath(__file__)))
 props = [json.loads(l) for l in open(os.path.join(V, "properties.jsonl"))]
 import ast
+READY = set(json.load(open(os.path.join(V, "claimed.json"))))   # integrator-verified checks only
 CLAIMED = {}
 for p in props:
+    if p["id"] not in READY:
+        continue
     f = os.path.join(V, "checks", p["id"].lower() + ".py")
     if not os.path.exists(f):
         continue
